@@ -157,3 +157,45 @@ def obligations(facts):
         ok = bool(loops) and body == ["(buckets[i]-=buckets[(i-1)])"] and txt(loops[0].get("c")).replace(" ", "") in (C("(i>0)"), C("(i!=0)"))
         rep("tdigest.query", "tdigest::get_PMF:differences", fn, ok, "PMF = adjacent differences of the CDF, from the back", "PMF loop is %s / %s" % (body, txt(loops[0].get("c")) if loops else "?"))
     return out
+
+
+def size_limit(facts):
+    """the compaction pass of merge(buffer, weight) lets a centroid absorb its neighbour only while the proposed weight stays within
+    the TIGHTER of the two size limits, at the left and at the right end of the proposed centroid: min(limit(q0), limit(q2)).  With
+    the looser one (max, or a ternary with the arms the other way round) the extreme centroids stop being singletons and the exact
+    minimum / maximum are lost in merges."""
+    from astu import single_assignment_locals
+    fs = td(facts)
+    out = []
+    for pat, fn in sorted(fs.items()):
+        if fn["name"] != "merge" or len(fn.get("params") or []) != 2:
+            continue
+        key = "tdigest::merge(buffer,weight):size-limit-is-min"
+        sal = single_assignment_locals(fn)
+
+        def res(x):
+            x = strip_all(x)
+            while isinstance(x, dict) and x.get("k") == "Ref" and x.get("d") in sal:
+                x = strip_all(sal[x["d"]])
+            return x if isinstance(x, dict) else {}
+        picks = []
+
+        def v(n):
+            if n.get("k") == "Call" and n.get("cname") in ("min", "max", "fmin", "fmax") and len(n.get("args", [])) == 2 and not n.get("obj"):
+                a, b = res(n["args"][0]), res(n["args"][1])
+                if all(x.get("k") == "Call" and x.get("cname") == "max" and x.get("obj") is not None and "scale_function" in (strip_all(x["obj"]).get("t") or x.get("crec") or "") for x in (a, b)):
+                    picks.append(n)
+            if n.get("k") == "Cond":
+                a, b = res(n["a"]), res(n["e"])
+                if all(x.get("k") == "Call" and x.get("cname") == "max" and x.get("obj") is not None for x in (a, b)):
+                    picks.append(n)
+        walk(fn["body"], v)
+        if not picks:
+            out.append(ob("tdigest.size-limit", key, fn["pat"], "unrecognised", "the combination of the two scale-function limits was not found in merge()", fn["qname"]))
+            continue
+        bad = [p for p in picks if not (p.get("k") == "Call" and p.get("cname") in ("min", "fmin"))]
+        if bad:
+            out.append(ob("tdigest.size-limit", key, bad[0].get("loc", fn["pat"]), "violated", "the size limit of a proposed centroid is `%s`, not the minimum of the limits at its two ends: the looser limit lets the first / last centroid absorb its neighbour, so the extreme centroids stop being singletons (exact min / max are lost when sketches are merged, quantile(0) / quantile(1) drift)" % txt(bad[0], sal)[:160], fn["qname"]))
+        else:
+            out.append(ob("tdigest.size-limit", key, picks[0].get("loc", fn["pat"]), "discharged", "limit = min(limit at q0, limit at q2)", fn["qname"]))
+    return out
